@@ -57,6 +57,29 @@ impl Prop for C12 {
         conv.lockstep = g.chance(2, 5);
         Case { conv }
     }
+    fn fixed(&self, tier: Tier) -> Vec<Case> {
+        // a lock-step client exchanging >= 16 MiB requests and replies
+        use crate::vals::*;
+        let mut v = Vec::new();
+        let lens: &[usize] = match tier {
+            Tier::Quick => &[MAX_PAYLOAD],
+            Tier::Thorough => &[MAX_PAYLOAD - 1, MAX_PAYLOAD, MAX_PAYLOAD + 9, 2 * MAX_PAYLOAD],
+        };
+        for (i, &len) in lens.iter().enumerate() {
+            for lockstep in [true, false] {
+                let big_row = RowProg { cells: vec![Val::plain(Base::BigBytes { seed: i as u32, len: len - 5 })], form: RowForm::WriteRow };
+                let prog = Program { steps: vec![Step::Set { cols: vec![ColSpec::simple("c", T_LONG_BLOB, 0)], rows: vec![big_row], end: SetEnd::Finish }] };
+                let mut conv = Conversation::new(
+                    vec![Cmd::Query { text: Blob::Text { seed: 9, len: len - 1 } }, Cmd::Ping, Cmd::Query { text: Blob::text("small") }, Cmd::Ping],
+                    vec![Action::Result(Program::completed(1, 1)), Action::Result(prog)],
+                );
+                conv.lockstep = lockstep;
+                conv.sched = Schedule::fixed(1 << 21);
+                v.push(Case { conv });
+            }
+        }
+        v
+    }
     fn exec(&self, case: &Case) -> Exec {
         let mut ex = Exec::default();
         let c = &case.conv;
